@@ -44,3 +44,8 @@ add("C06", "exploration", "runtime monitor: independent block-tree model (unique
 add("C07", "exploration", "runtime monitor: block-tree model with visibility and must-hit rules, mutable values scribbled by the harness after every set and get",
     "64 000 (quick) / 1 200 000 (thorough) block trees with mutable value types (byte slice with deep Clone; leaf, branch, extension and value trie nodes); the harness overwrites every object it hands in or receives; lookups must miss for uncommitted foreign writes, must hit with the original logical content for own entries and for committed writes on a fully committed chain within capacity.",
     "Must-hit assertions only an order of magnitude below the cache capacities (<100 versions per key, <1000 commits).")
+
+HOOK_COMMITS[:] = ["0496db9", "af87284"]
+add("C08", "exploration", "runtime monitor: cooperative scheduler on the verif yield hook (bounded-preemption enumeration + random + PCT schedules) and free-running stress under the Go race detector, judged by the block-tree oracle",
+    "Mode A drives 8 commit-vs-lookup scenarios through every schedule with at most 3 (quick) / 4 (thorough) preemptions plus tens of thousands of random and PCT schedules at the granularity of single shared-map accesses; mode B runs 120 (quick) / 1 500 (thorough) multi-committer/multi-reader executions with hook-injected delays in the -race binary. Every hit must equal the tree-determined value, post-commit lookups must hit, a quiescent sweep follows every schedule; race reports are violations.",
+    "Schedule granularity is that of the hook's yield points; one committer at a time in mode A; race freedom only for interleavings that occurred.")
